@@ -184,6 +184,30 @@ def statestore_part():
             re.sub(r"[^ -~]", "?", str(e))[:300])
 
 
+@part
+def archive_part():
+    """C33: see translate_archive.py (own module; a failure only withholds the archive_* / backup_*
+    definitions, so only the C33 development stops compiling)."""
+    import translate_archive as TA
+    try:
+        return TA.extract(src)
+    except (TA.Err, TranslateError, SyntaxError) as e:
+        return "Definition archive_TRANSLATE_ERROR : string := %s." % coq_string(
+            re.sub(r"[^ -~]", "?", str(e))[:300])
+
+
+@part
+def version_part():
+    """C34: see translate_version.py (a failure only withholds the c34_* definitions, so only the
+    C34 development stops compiling)."""
+    import translate_version as TV
+    try:
+        return TV.extract(src)
+    except (TV.Err, TranslateError, SyntaxError) as e:
+        return "Definition c34_TRANSLATE_ERROR : string := %s." % coq_string(
+            re.sub(r"[^ -~]", "?", str(e))[:300])
+
+
 def generate():
     body = ["(* GENERATED by harness/translate.py from /repo — do not edit. *)",
             "From Coq Require Import List ZArith String.", "Import ListNotations.",
